@@ -77,7 +77,8 @@ SPECS = {
  "C13": ("Persistence failures are contained, reported once and never corrupt the log", "",
    [(P,"persist_spec","failure_reported_once_no_retry"),(P,"delivery_independent_of_faults","delivery_independent_of_faults"),(P,"offsets_increasing","offsets_keep_increasing"),(F,"no_panic_escapes","publish_does_not_panic")]),
  "C20": ("Observability callbacks are balanced, nested and truthful", "",
-   [(O,"obs_balanced_exec","obs_balanced_call"),(O,"obs_balanced_run","obs_balanced_run"),(O,"obs_ids_fresh","span_ids_fresh"),(O,"callHandler_obs","handler_callbacks"),(O,"persist_obs","persist_callbacks"),(O,"publish_obs","publish_callbacks"),(O,"no_obs_no_events","no_observability_no_callbacks")]),
+   [(O,"obs_balanced_exec","obs_balanced_call"),(O,"obs_balanced_run","obs_balanced_run"),(O,"obs_ids_fresh","span_ids_fresh"),(O,"callHandler_obs","handler_callbacks"),(O,"persist_obs","persist_callbacks"),(O,"publish_obs","publish_callbacks"),(O,"no_obs_no_events","no_observability_no_callbacks"),
+    ("Ebu/Proofs/BusOtel.lean","spans_ended_exactly_once","spans_ended_exactly_once"),("Ebu/Proofs/BusOtel.lean","counters_truthful","counters_truthful")]),
 }
 ONLY = sys.argv[1:]
 for prop, (title, intro, items) in SPECS.items():
